@@ -48,6 +48,9 @@ type replicator struct {
 
 	tasks map[cid.Cid]queuedState
 
+	// hashes whose fetch was cancelled or failed, retried by the next Load
+	failed map[cid.Cid]struct{}
+
 	sem       *semaphore.Weighted
 	queue     *processQueue
 	muProcess sync.RWMutex
@@ -94,6 +97,7 @@ func NewReplicator(store storeInterface, concurrency uint, opts *Options) (Repli
 		concurrency: int64(concurrency),
 		store:       store,
 		tasks:       make(map[cid.Cid]queuedState),
+		failed:      make(map[cid.Cid]struct{}),
 		queue:       &processQueue{},
 		logger:      opts.Logger,
 		tracer:      opts.Tracer,
@@ -168,8 +172,29 @@ func (r *replicator) Load(ctx context.Context, entries []ipfslog.Entry) {
 
 	// process and wait the whole queue to complete
 	r.muProcess.Lock()
-	for i, entry := range entries {
-		if exist := r.AddEntryToQueue(entry); exist {
+
+	// give another chance to the entries a previous request failed to fetch
+	for hash := range r.failed {
+		delete(r.failed, hash)
+
+		item, exist := r.AddHashToQueue(hash)
+		if exist {
+			continue
+		}
+
+		wg.Add(1)
+		go func(item processItem) {
+			if err := r.processOne(ctx, &wg, item); err != nil {
+				r.logger.Warn("unable to process entry", zap.Error(err))
+			}
+
+			wg.Done()
+		}(item)
+	}
+
+	for _, entry := range entries {
+		item, exist := r.AddEntryToQueue(entry)
+		if exist {
 			continue
 		}
 
@@ -181,29 +206,33 @@ func (r *replicator) Load(ctx context.Context, entries []ipfslog.Entry) {
 		wg.Add(1)
 
 		// add one process
-		go func(_ int) {
-			if err := r.processOne(ctx, &wg); err != nil {
+		go func(item processItem) {
+			if err := r.processOne(ctx, &wg, item); err != nil {
 				r.logger.Warn("unable to process entry", zap.Error(err))
 			}
 
 			wg.Done()
-		}(i)
+		}(item)
 	}
 	r.muProcess.Unlock()
 
 	wg.Wait()
 }
 
-// processOne wait for a process slot then process one element of the queue
-func (r *replicator) processOne(ctx context.Context, wg *sync.WaitGroup) error {
+// processOne wait for a process slot then process the given element of the queue
+func (r *replicator) processOne(ctx context.Context, wg *sync.WaitGroup, e processItem) error {
 	// wait for a process slot
-	e, err := r.waitForProcessSlot(ctx)
-	if err != nil {
+	if err := r.waitForProcessSlot(ctx, e); err != nil {
 		return err
 	}
 
 	if err := r.processItems(ctx, wg, e); err != nil {
 		r.logger.Warn("process item ended", zap.Error(err))
+
+		// the entry was not fetched: forget it so that it can be requested again
+		verifhook.At("replicator.before.done", r, e.GetHash())
+		r.processEntryFailed(e)
+		return nil
 	}
 
 	// mark this process has done
@@ -223,20 +252,21 @@ func (r *replicator) processItems(ctx context.Context, wg *sync.WaitGroup, items
 
 		r.muProcess.Lock()
 		for _, hash := range next {
-			if exist := r.AddHashToQueue(hash); exist {
+			item, exist := r.AddHashToQueue(hash)
+			if exist {
 				continue
 			}
 
 			wg.Add(1)
 
 			// add process
-			go func() {
-				if err := r.processOne(ctx, wg); err != nil {
+			go func(item processItem) {
+				if err := r.processOne(ctx, wg, item); err != nil {
 					r.logger.Warn("unable to process entry", zap.Error(err))
 				}
 
 				wg.Done()
-			}()
+			}(item)
 		}
 		r.muProcess.Unlock()
 	}
@@ -284,6 +314,12 @@ func (r *replicator) processHash(ctx context.Context, item processItem) ([]cid.C
 		return nil, fmt.Errorf("unable to fetch log: %w", err)
 	}
 
+	// the fetcher swallows fetch errors (cancellation, unavailable block):
+	// without the requested entry, the request has failed
+	if _, ok := l.Get(hash); !ok {
+		return nil, fmt.Errorf("unable to fetch entry %s", hash.String())
+	}
+
 	r.muBuffer.Lock()
 	r.buffer = append(r.buffer, l)
 	r.muBuffer.Unlock()
@@ -319,21 +355,32 @@ func (r *replicator) generateEmitter(bus event.Bus) error {
 	return nil
 }
 
-func (r *replicator) waitForProcessSlot(ctx context.Context) (e processItem, err error) {
+func (r *replicator) waitForProcessSlot(ctx context.Context, e processItem) error {
 	verifhook.At("replicator.slot.wait", r)
 	if err := r.sem.Acquire(ctx, 1); err != nil {
-		return nil, fmt.Errorf("failed to acquire process slot: %w", err)
+		// the request ended before a slot was available: forget the item so
+		// that it can be requested again
+		r.muProcess.Lock()
+		r.queue.Remove(e)
+		delete(r.tasks, e.GetHash())
+		r.failed[e.GetHash()] = struct{}{}
+		if r.isIdle() {
+			r.idle()
+		}
+		r.muProcess.Unlock()
+
+		return fmt.Errorf("failed to acquire process slot: %w", err)
 	}
 	r.muProcess.Lock()
 
 	r.taskInProgress++
 
-	e = r.queue.Next()
+	r.queue.Remove(e)
 	r.tasks[e.GetHash()] = stateFetching
 
 	r.muProcess.Unlock()
 	verifhook.At("replicator.dequeued", r, e.GetHash())
-	return
+	return nil
 }
 
 func (r *replicator) processEntryDone(item processItem) {
@@ -343,6 +390,27 @@ func (r *replicator) processEntryDone(item processItem) {
 
 	// remove hash from queued list
 	r.tasks[item.GetHash()] = stateFetched
+
+	// if there no more task to proceed, trigger idle method
+	if r.isIdle() {
+		r.idle()
+	}
+
+	// signal that a process slot is available
+	r.sem.Release(1)
+
+	r.muProcess.Unlock()
+}
+
+// processEntryFailed releases the slot of an item that could not be fetched and
+// forgets it, so that a later request can queue it again
+func (r *replicator) processEntryFailed(item processItem) {
+	r.muProcess.Lock()
+
+	r.taskInProgress--
+
+	delete(r.tasks, item.GetHash())
+	r.failed[item.GetHash()] = struct{}{}
 
 	// if there no more task to proceed, trigger idle method
 	if r.isIdle() {
@@ -371,21 +439,21 @@ func (r *replicator) shouldExclude(hash cid.Cid) (exist bool) {
 }
 
 // AddHashToQueue is not thread safe
-func (r *replicator) AddHashToQueue(hash cid.Cid) (exist bool) {
+func (r *replicator) AddHashToQueue(hash cid.Cid) (item processItem, exist bool) {
 	_, inLog := r.store.OpLog().Get(hash)
 	_, queued := r.tasks[hash]
 	if exist = queued || inLog; exist {
 		return
 	}
 
-	item := newProcessHash(hash)
+	item = newProcessHash(hash)
 	r.queue.Add(item)
 	r.tasks[hash] = stateAdded
 	return
 }
 
 // AddEntryToQueue is not thread safe
-func (r *replicator) AddEntryToQueue(entry iface.IPFSLogEntry) (exist bool) {
+func (r *replicator) AddEntryToQueue(entry iface.IPFSLogEntry) (item processItem, exist bool) {
 	hash := entry.GetHash()
 	_, inLog := r.store.OpLog().Get(hash)
 	_, queued := r.tasks[hash]
@@ -393,7 +461,7 @@ func (r *replicator) AddEntryToQueue(entry iface.IPFSLogEntry) (exist bool) {
 		return
 	}
 
-	item := newProcessEntry(entry)
+	item = newProcessEntry(entry)
 	r.queue.Add(item)
 	r.tasks[hash] = stateAdded
 	return
